@@ -4,8 +4,8 @@
 # unedited suite passes with the patch. Writes <seed-out-dir>/verify.json . Removes the worktree afterwards.
 set -u
 SD="$1"; L="$2"
-WT=/tmp/vs/wt_$L
-export CARGO_TARGET_DIR=/tmp/vs/target
+WT=/tmp/vs/wt_$L; mkdir -p /tmp/vs
+export CARGO_TARGET_DIR=${VS_TARGET:-/tmp/vs/target}
 export CARGO_NET_OFFLINE=true
 git -C /repo worktree remove --force "$WT" >/dev/null 2>&1
 git -C /repo worktree add --detach "$WT" HEAD >/dev/null 2>&1 || { echo "worktree failed"; exit 2; }
